@@ -49,6 +49,17 @@ def jobs(tier, seed):
     J('labels_more', labels='more')
     J('scalar_as_dim1', lay={'scalar_dims': 1}, extras=ex[:4])
     J('zero_offset_terminator', lay={'terminator': 'zero_offset'}, extras=ex[:2])
+    for order in ('canonical', 'reversed', 'params_first'):
+        J('zero_offset_terminator+%s+described' % order, lay={'terminator': 'zero_offset', 'order': order}, extras=ex[:1])
+        J('zero_offset_terminator+%s+plain' % order, lay={'terminator': 'zero_offset', 'order': order}, extras=ex[1:2], desc_len=0)
+    import itertools
+    sweep = []
+    for rank in (1, 2, 3):
+        for dims in itertools.product((0, 1, 2), repeat=rank):
+            for t in (1, 2, 4, -1):
+                sweep.append({'name': 'S%03d' % len(sweep), 'type': t, 'dims': list(dims), 'desc_len': len(sweep) % 2, 'slen': 1, 'locked': len(sweep) % 5 == 0})
+    for i in range(0, len(sweep), 6):
+        J('shape-sweep-%d' % (i // 6), shape={'P': 1, 'C': 0, 'sub': 0, 'F': 1}, analog='empty', symbolic_meta=False, extras=sweep[i:i + 6])
     J('first_frame_2', first=2)
     J('first_frame_1000', first=1000, shape={'F': 1})
     J('events3', events=3)
